@@ -59,8 +59,34 @@ def parse(out):
     return {"checks": checks, "ok": ok, "bad": bad, "failed_names": failed_names, "summary": summary, "vtime": vtime, "failed_checks": failed_checks}
 
 
+def run_verus_part(prop, seed):
+    """the Verus unit `value` (parametric proof of the conversion macros / eq / hash for EVERY variant), run next to Kani"""
+    from . import run as vrun
+    try:
+        r = vrun.run_unit("value", seed=seed, threads=4)
+    except vrun.Undecided as e:
+        return {"undecided": [str(e)], "fails": [], "r": None}
+    except Exception as e:  # tool crash => undecided
+        return {"undecided": ["unit=value internal error: %s" % e], "fails": [], "r": None}
+    und, fails = [], []
+    if r["status"] == "undecided":
+        und.append("unit=value %s" % r.get("why", ""))
+    for k, info in (r.get("stubbed") or {}).items():
+        if prop in info["props"]:
+            und.append("unit=value function `%s` is outside the verifier's reach on this tree (%s)" % (k, info["reason"]))
+    for f in r["failures"]:
+        if prop in f["props"]:
+            fails.append(f)
+        elif "MODEL" in f["props"] and prop == "C18":
+            # the code's hashing scheme no longer matches the model the lemma is proved over: nothing is decided about C18 by this unit
+            und.append("unit=value `%s` no longer matches the hashing model (discriminant, then the payload's own hash): %s" % (f["site_item"], f["clause"][:120]))
+    return {"undecided": und, "fails": fails, "r": r}
+
+
 def check(prop, tier, seed, P):
     t0 = time.time()
+    import concurrent.futures as cf
+    vfut = cf.ThreadPoolExecutor(max_workers=1).submit(run_verus_part, prop, seed)
     if not os.path.exists(os.path.join(KDIR, "Cargo.lock")):
         shutil.copy("/repo/Cargo.lock", os.path.join(KDIR, "Cargo.lock"))
     hs = harnesses()
@@ -99,10 +125,49 @@ def check(prop, tier, seed, P):
         for (f, n) in p["checks"]:
             full_checks += n
             full_ok += n - f
+    vp = vfut.result()
+    undecided += vp["undecided"]
+    v_obl = v_ok = 0
+    v_funcs, v_rules, v_scan, v_ms = [], {}, [], 0.0
+    if vp["r"] is not None and vp["r"].get("funcs"):
+        r = vp["r"]
+        unit = r["unit"]
+        by_vpath = {f["vpath"]: f for f in unit.functions if f.get("kind") == "fn"}
+        failed_items = set(x["site_item"] for x in vp["fails"])
+        for fname, fr in r["funcs"].items():
+            short = fname.split("::", 1)[1] if "::" in fname else fname
+            rec = by_vpath.get(short)
+            if rec is not None and rec.get("props") and prop not in rec["props"]:
+                continue
+            ok = fr["success"] or (rec is not None and rec["item"] not in failed_items)
+            v_obl += 1
+            v_ok += 1 if ok else 0
+            v_ms += fr.get("time_us", 0) / 1000.0
+        for f in unit.functions:
+            if f.get("kind") == "fn" and f.get("props") and prop not in f["props"]:
+                continue
+            v_funcs.append({"item": f["item"], "file": f["file"], "line": f["line"], "sha256": f["sha256"], "has_contract": f.get("has_contract"), "rules": [a["rule"] for a in f["rules"]]})
+            for a in f["rules"]:
+                v_rules[a["rule"]] = v_rules.get(a["rule"], 0) + 1
+        text = open(r["path"]).read()
+        for kw in ("assume(", "admit(", "external_body", "assume_specification", "axiom fn", "uninterp spec fn"):
+            c = text.count(kw)
+            if c:
+                v_scan.append("value: %d occurrence(s) of `%s` in %s" % (c, kw, os.path.basename(r["path"])))
     wall = time.time() - t0
     os.makedirs(os.path.join(ROOT, "replay", "out"), exist_ok=True)
     vio_out = []
-    for i, v in enumerate(violations):
+    for i, f in enumerate(vp["fails"]):
+        path = os.path.join(ROOT, "replay", "out", "%s-v%d.json" % (prop, i + 1))
+        obl = "%s :: %s :: %s" % (f["site_item"], f["message"], re.sub(r"\s+", " ", f["clause"])[:160])
+        json.dump({"property": prop, "obligation": obl, "function": f["site_item"], "clause": f["clause"], "verifier_message": f["message"], "verifier_output": f["rendered"],
+                   "generated_file": vp["r"]["path"], "input": None,
+                   "note": "Verus gives no counterexample and this property has no witness search: the payload types are opaque in the proof (it fails for SOME payload type / variant); ./check %s --replay re-runs the check on the current tree" % prop},
+                  open(path, "w"), indent=1)
+        violations.append({"harness": "verus:" + obl, "config": "unit value", "features": ""})
+        vio_out.append(({"harness": "verus obligation " + obl, "config": "unit value"}, path, False))
+    n_kani_viol = len(violations) - len(vp["fails"])
+    for i, v in enumerate(violations[:n_kani_viol]):
         # concrete counterexample from CBMC, as a Rust unit test (concrete playback)
         short = v["harness"].split("::")[-1]
         cmd = ["cargo", "kani", "--harness", short, "-Z", "concrete-playback", "--concrete-playback=print", "--output-format", "terse"]
@@ -125,12 +190,15 @@ def check(prop, tier, seed, P):
     ev = {
         "property_id": prop, "tier": tier, "seed": seed, "level": "proof",
         "coverage": {
-            "obligations": full_checks, "discharged": full_ok,
-            "obligation_unit": "CBMC property checks (assertions of the harness postconditions, unwinding assertions, memory-safety / overflow checks of the real code reached) summed over harnesses",
+            "obligations": full_checks + v_obl, "discharged": full_ok + v_ok,
+            "obligation_unit": "CBMC property checks (assertions of the harness postconditions, unwinding assertions, memory-safety / overflow checks of the real code reached) summed over harnesses, PLUS one per function / lemma verified by Verus in unit `value` (%d of %d discharged)" % (v_ok, v_obl),
+            "verus_unit_value": {"obligations": v_obl, "discharged": v_ok, "solver_time_ms": round(v_ms, 1), "functions_under_contract": v_funcs, "rewrite_rule_applications": v_rules,
+                                 "assumption_scan": v_scan, "canaries": (vp["r"] or {}).get("canary") and {k: v for k, v in vp["r"]["canary"].items() if k != "path"},
+                                 "checker_cmd": (vp["r"] or {}).get("res", {}).get("cmd")},
             "harnesses": {"complete (loop-free or fixed-size with unwinding assertions, full-domain symbolic inputs)": [n for n in names_all if n.startswith("full_")],
                           "bounded (NOT counted as proved)": [n + " : byte strings of length <= 3" for n in names_all if n.startswith("bounded_")]},
             "checker_cmd": " ; ".join("cd /verif/kani && " + r["cmd"] for r in results),
-            "back_end": "Kani 0.68.0 / CBMC 6.11.0",
+            "back_end": "Kani 0.68.0 / CBMC 6.11.0 ; Verus 0.2026.09.13 (Z3) for unit `value`",
             "trusted_base": P.get("trusted_base", []),
             "samples": [{"harness": n} for n in names_all[:5]],
             "solver_time_s": round(sum(r["parsed"]["vtime"] for r in results), 1),
@@ -142,12 +210,12 @@ def check(prop, tier, seed, P):
     json.dump(ev, open(os.path.join(ROOT, "evidence", "%s.json" % prop), "w"), indent=1)
     if violations:
         for v, path, has in vio_out:
-            print("OBLIGATION FAILED: kani harness %s (%s)" % (v["harness"], v["config"]))
+            print("OBLIGATION FAILED: %s%s (%s)" % ("" if v["harness"].startswith("verus") else "kani harness ", v["harness"], v["config"]))
             print("VIOLATION property=%s replay=%s%s" % (prop, path, "" if has else " no-failing-input-found"))
         return 1
     if undecided:
         for x in undecided:
             print("UNDECIDED property=%s %s" % (prop, x[:500]))
         return 2
-    print("OK property=%s harnesses=%d cbmc_checks=%d wall=%.1fs" % (prop, len(names_all), full_checks, wall))
+    print("OK property=%s harnesses=%d cbmc_checks=%d verus_items=%d wall=%.1fs" % (prop, len(names_all), full_checks, v_obl, wall))
     return 0
